@@ -6,6 +6,7 @@
 //	harness-frame malformed <n> [thorough]  structure-aware mutations of valid encodings through the four decoding entry
 //	                                        points: the fixed header mutations, then about n records (input x entry point)
 //	harness-frame mutators <n>              sequences of frame mutators (C20) and of Startup accessors
+//	harness-frame specbytes                 hand-written specification-formatted frames the encoder never emits, decoded by the codec
 //	harness-frame selftest                  a Coq file with one populated term of every message kind and data type
 //	harness-frame one <entry> <version> <compression> <hex>   a single malformed case in this process (replay)
 //	harness-frame worker                    (internal) malformed cases from stdin, one JSON line each
@@ -63,6 +64,8 @@ func main() {
 		cmdMalformed(os.Args[2:])
 	case "mutators":
 		cmdMutators(os.Args[2:])
+	case "specbytes":
+		cmdSpecBytes()
 	case "selftest":
 		cmdSelftest()
 	case "one":
